@@ -446,6 +446,7 @@ def run(ctx):
     _fresh_record_per_iteration(ctx)
     _flag_values_are_format(ctx)
     _counts_are_tested_before_use(ctx)
+    _presized_vectors_are_not_appended_to(ctx)
 
 
 def _byte_copy(ctx):
@@ -1178,3 +1179,52 @@ def _counts_are_tested_before_use(ctx):
                 ctx.ob("R12.11", "%s|%s|%s|tested-before-use" % (f.name, uninit[d], what.replace(" ", "-")), ok, f.loc(u),
                        "`%s` %s %s the stream was tested with fail()" % (uninit[d], what, "after" if ok else "BEFORE / WITHOUT"))
     ctx.floor("R12.11", "uses of counts read from the stream", n, 10)
+
+
+def _resize_then_append(f):
+    out = []
+    for c in f.walk():
+        if not (c.get("k") == "call" and callee_short(c) == "resize" and "this" in c and c.get("a")):
+            continue
+        vec = show(c["this"]).replace(" ", "")
+        cnt = local_ref(c["a"][0])
+        for p_ in f.walk():
+            if p_.get("k") == "call" and callee_short(p_) in ("push_back", "emplace_back") and "this" in p_ and show(p_["this"]).replace(" ", "") == vec and p_.get("i", 0) > c.get("i", 0):
+                # is the append inside a loop bounded by the same count?
+                for lp in f.ancestors(p_):
+                    if lp.get("k") in ("for", "while") and lp.get("c") is not None and cnt is not None and any(z.get("k") == "ref" and z.get("d") == cnt["d"] for z in walk(lp["c"])):
+                        out.append((c, p_, vec))
+    return out
+
+
+def _presized_vectors_are_not_appended_to(ctx):
+    """R12.12: the readers fill a vector with `reserve(n)` and n push_back()s.  `resize(n)` in place of reserve() leaves n
+    default elements in FRONT of the n that are read: the record comes back with 2n entries, the accessors return the
+    wrong count and strings, and the file does not re-serialise to the same bytes.  No vector of the database library is
+    resize()d to a count and then appended to in a loop over the same count.
+    (Seed S11-C12: `_alt_names.resize(num_alt_names)`.)"""
+    db = ctx.db
+    ctx.rule("R12.12", "in the database library no vector is resize()d to a count and then push_back()ed to in a loop bounded by the same count")
+
+    class _P:
+        def __init__(self):
+            self.rz = {"i": 1, "k": "call", "f": "std::vector::resize", "this": {"k": "mem", "n": "C::_v", "b": {"k": "this"}}, "a": [{"k": "ref", "d": 9, "dk": "local", "n": "n"}]}
+            self.pb = {"i": 5, "k": "call", "f": "std::vector::push_back", "this": {"k": "mem", "n": "C::_v", "b": {"k": "this"}}, "a": [{"k": "ref", "d": 3}]}
+            self.lp = {"i": 3, "k": "for", "c": {"k": "bin", "op": "<", "x": {"k": "ref", "d": 2}, "y": {"k": "ref", "d": 9, "dk": "local"}}, "body": self.pb}
+
+        def walk(self):
+            return [self.rz, self.lp, self.pb]
+
+        def ancestors(self, n):
+            return [self.lp] if n is self.pb else []
+    if len(_resize_then_append(_P())) != 1:
+        ctx.broken("R12.12: the detector no longer recognises its own example")
+    n = 0
+    for f in db.functions:
+        if "/interrogatedb/" not in f.file:
+            continue
+        n += 1
+        for rz, pb, vec in _resize_then_append(f):
+            ctx.ob("R12.12", "%s|%s|resize-then-append" % (f.name, vec), False, f.loc(rz), "`%s` is resize()d to the count and then appended to once per element: it ends up twice as long" % vec)
+    ctx.ob("R12.12", "database-library|no-resize-then-append", True, "src/interrogatedb", "%d functions examined" % n)
+    ctx.floor("R12.12", "functions examined", n, 300)
